@@ -39,7 +39,7 @@ impl Property for C07 {
         "C07"
     }
     fn rule(&self) -> &'static str {
-        "Seeded struct worlds with 1-3 vertex entries taking 0-3 vertex input structs (f32/i32/u32/f64 scalars and vec2-4, arbitrary unordered location numbers, interleaved builtins, structs shared by several entries, one doubling as storage element) next to builtin and loose @location parameters, x 3 representations x bytemuck/encase switches; oracle = naga entry arguments + the statement's format table: per struct exactly one impl with VERTEX_ATTRIBUTES holding one attribute per @location member {format of the same kind/width/count, offset_of!(S, member), its location} and vertex_buffer_layout {array_stride: size_of::<S>(), step_mode parameter, &S::VERTEX_ATTRIBUTES}; per vertex entry `buffers` = S_j::vertex_buffer_layout(step parameter j) in parameter order with distinct VertexStepMode parameters and VertexEntry<n>."
+        "Seeded struct worlds with 1-3 vertex entries taking 0-3 vertex input structs (f32/i32/u32/f64 scalars and vec2-4, arbitrary unordered location numbers, interleaved builtins, structs shared by several entries, one doubling as storage element) next to builtin and loose @location parameters (types also spelled through `alias`; a struct parameter also through an alias of the struct), entry points declared in shuffled order, x 3 representations x bytemuck/encase switches; oracle = naga entry arguments + the statement's format table: per struct exactly one impl with VERTEX_ATTRIBUTES holding one attribute per @location member {format of the same kind/width/count, offset_of!(S, member), its location} and vertex_buffer_layout {array_stride: size_of::<S>(), step_mode parameter, &S::VERTEX_ATTRIBUTES}; per vertex entry `buffers` = S_j::vertex_buffer_layout(step parameter j) in parameter order with distinct VertexStepMode parameters and VertexEntry<n>."
     }
 
     fn cases(&self, seed: u64, tier: Tier) -> Vec<Case> {
